@@ -51,6 +51,8 @@ type Path struct {
 }
 
 type Val struct {
+	IfaceT types.Type // static type of the value boxed by MakeInterface (when known)
+	IfaceV Term       // and its term
 	T   Term
 	P   *Path
 	Tup []Val
@@ -1336,7 +1338,7 @@ func (t *fnTrans) loopHead(li *loopInfo) {
 	all := t.loopModAll[h]
 	for _, name := range sortedKeys(t.vars) {
 		sv := t.vars[name]
-		if mods[name] || (all && sv.Heap) || (all && name == "alloc") {
+		if mods[name] || (all && (sv.Heap || sv.Kind == "ghost")) || (all && name == "alloc") {
 			nv := fmt.Sprintf("%s_h%d", name, h)
 			t.declare(nv, sv.Sort)
 			if name == "alloc" {
@@ -1419,8 +1421,12 @@ func (t *fnTrans) havocAll(why string) {
 	t.noteWrite("*")
 	for _, name := range sortedKeys(t.vars) {
 		sv := t.vars[name]
-		if sv.Heap {
-			t.cur.m[name] = t.fresh(name+"_hv", sv.Sort)
+		if sv.Heap || sv.Kind == "ghost" {
+			nv := t.fresh(name+"_hv", sv.Sort)
+			t.cur.m[name] = nv
+			if sv.Kind == "ghost" && sv.Typ != nil {
+				t.assume(t.wf(nv, sv.Typ))
+			}
 		}
 	}
 	na := t.fresh("alloc_hv", "Int")
